@@ -11,8 +11,8 @@
 From Coq Require Import String List Arith NArith ZArith Bool Lia Permutation.
 From J5V.lib Require Import Outcome Strcase.
 From J5V.model Require Import Desc J5sAst J5sWalk J5sConvert CmpbOrder CmpbInstance CmpbBytes.
-From J5V.model Require ProtoPrintLit ProtoPrint ProtoPrintFile.
-From J5V.proofs Require ProtoPrintFileExample.
+From J5V.model Require ProtoPrintLit ProtoPrint ProtoPrintFile ProtoPrintFileWf ProtoParseFile.
+From J5V.proofs Require ProtoPrintFileExample ProtoPrintFileSemProofs ProtoPrintFileFullProofs ProtoPrintFileWfProofs.
 From J5V.proofs Require Import CmpbOrderProofs CmpbComposeProofs CmpbLinkTotalProofs CmpbBytesProofs.
 Import ListNotations.
 Module X := ProtoPrintFileExample.
@@ -179,4 +179,24 @@ Proof.
   exists o. intros r Hr Hf Hl. apply H; [exact Hr|exact Hf|].
   intros f Hin. assert (Hle : (exb_frank f <= 4)%nat); [|lia].
   vm_compute in Hin. destruct Hin as [<-|[<-|[<-|[]]]]; vm_compute; lia.
+Qed.
+
+(* the tokens are protobuf text FOR that descriptor in tool's model: every printer descriptor of the example, under both
+   Range orders, is well formed in tool's sense (ProtoPrintFileWf.wf_dfile_b: every type reference resolves in the symbol
+   table of the file and its imports, ...), so by tool's round-trip theorem its printed tokens parse back (tool's model of
+   the protocompile parser) to an equivalent descriptor *)
+Lemma exb_printed_reads_back : forall out, compile_run exb_bd exb_exts exb_r1 (b "foo.v1") = Some out ->
+  forall x, In x out -> forall rng, rng = r_range exb_r1 \/ rng = r_range exb_r2 ->
+    ProtoPrintFileWf.wf_dfile_b (imp_symtab exb_ann (l_imports (snd x))) (reorder rng (to_print exb_ann (snd x))) = true
+    /\ exists D', ProtoParseFile.parse_file_tokens (imp_symtab exb_ann (l_imports (snd x))) (print_linked exb_ann rng (snd x)) = Some D'
+                  /\ ProtoPrintFileFullProofs.desc_equiv (reorder rng (to_print exb_ann (snd x))) D'.
+Proof.
+  intros out H. vm_compute in H. inversion H; subst out. clear H.
+  intros x Hx rng Hr.
+  assert (Hb : ProtoPrintFileWf.wf_dfile_b (imp_symtab exb_ann (l_imports (snd x))) (reorder rng (to_print exb_ann (snd x))) = true
+               /\ st_of exb_ann (snd x) = PF.to_symtab (PF.dfile_symtab (imp_symtab exb_ann (l_imports (snd x))) (reorder rng (to_print exb_ann (snd x))))).
+  { cbn [In] in Hx. destruct Hx as [<-|[<-|[<-|[]]]]; destruct Hr as [->| ->]; split; vm_compute; reflexivity. }
+  destruct Hb as [Hb Hs]. split; [exact Hb|].
+  destruct (ProtoPrintFileFullProofs.token_roundtrip _ _ (ProtoPrintFileWfProofs.wf_dfile_b_sound _ _ Hb)) as (D' & Hp & He & _).
+  exists D'. split; [|exact He]. unfold print_linked. rewrite Hs. exact Hp.
 Qed.
